@@ -26,6 +26,7 @@ def run(ctx):
     tp.compact_typestate(rep, 'R01.c', prog, cg)
     tp.long_form_id_becomes_context(rep, 'R01.c', prog, cg)
     tp.compact_bool_element(rep, 'R01.b', prog, cg)
+    tp.writers_do_not_overflow(rep, 'R01.o', prog, cg)
     import c03
     c03.ttype_byte_conversion(rep, 'R01.t', prog)
     # reader guards are exactly as wide as the read needs (a value ending at the end of the buffer is complete)
@@ -36,6 +37,7 @@ def run(ctx):
     # the unchecked writer on a linked buffer: pending bytes are committed before a payload is linked in (zero-copy on)
     import unsafe_codec
     unsafe_codec.zero_copy_sites(rep, 'R01.z', prog, cg)
+    unsafe_codec.reader_accounting(rep, 'R01.r', prog, cg)
     rep.floor('R01.a', 90)
     rep.floor('R01.e', 100)
     rep.floor('R01.i', 40)
